@@ -7,6 +7,7 @@ package chunks
 
 import (
 	"errors"
+	"os"
 	"time"
 
 	"github.com/prometheus/client_golang/prometheus"
@@ -111,11 +112,19 @@ func vpH_C25_chunk_pending_in_queue() {
 		chunkBuffer:       newChunkBuffer(),
 		writeQueue:        q,
 	}
+	vpNative(func() {
+		d, err := os.Open(os.TempDir())
+		if err != nil {
+			panic(err)
+		}
+		cdm.dir = d
+	})
 	seq := vpShape("fileOfTheReference", 1, 3) // an older file, the current one, or the next one (cut pending)
 	ref := newChunkDiskMapperRef(uint64(seq), uint64(HeadChunkFileHeaderSize))
 	chk := chunkenc.NewXORChunk()
 	vpAssert(q.addJob(chunkWriteJob{seriesRef: 1, chk: chk, ref: ref, cutFile: seq == 3}) == nil, "queued")
 	got, err := cdm.Chunk(ref)
+	vpNative(func() { cdm.dir.Close() })
 	vpObserve("err", err != nil)
 	vpAssert(err == nil && got == chk, "a chunk whose write is pending is read back from the queue, the very object that was handed in")
 	vpReach("end")
